@@ -259,6 +259,7 @@ def render(ch, dm, extra_root_attrs=''):
                 L.append('%s  <transition%s>' % (ind, at)); L.extend(rn_actions(t.content, dm, ind + '    ')); L.append('%s  </transition>' % ind)
             else:
                 L.append('%s  <transition%s/>' % (ind, at))
+        for x in getattr(s, 'extra_xml', ()): L.append(ind + '  ' + x)      # verbatim child elements (<invoke> in C13)
         for c in s.children: w(c, ind + '  ')
         L.append('%s</%s>' % (ind, s.kind))
     w(ch.root, '')
